@@ -72,6 +72,8 @@ def cases() -> Any:
         store_prefill=st.sampled_from([None, None, 1, 2, 3]),
         warmup=st.sampled_from([False, False, True]),
         reused_mw=st.sampled_from([False, False, True]),
+        # the worker's wall clock is set back 5 s during this attempt (1-based; None: steady clock) - NTP step, VM resume
+        clock_back=st.sampled_from([None, None, None, 1, 2, 3]),
         fail_kind=st.sampled_from(["ValueError", "ValueError", "KeyError", "MyBase", "CancelledError", "SystemExit", "EmptyBatchError", "TaskiqResultTimeoutError", "SendTaskError", "TaskRejectedError", "ResultGetError"]),
         # a second call of the same task handled by the same middleware instance (own labels, own outcome sequence)
         second=st.one_of(st.none(), st.none(), st.fixed_dictionaries(dict(
@@ -162,6 +164,14 @@ def run_case(c: Dict[str, Any]) -> Outcome:
     if c.get("second"):
         calls.append({**c["second"], "dflt_count": c["dflt_count"], "dflt_label": c["dflt_label"], "nror": c["nror"]})
 
+    import taskiq.receiver.receiver as _rr
+
+    wall = [1.7e9]
+
+    def fake_time() -> float:
+        wall[0] += 0.001
+        return wall[0]
+
     async def go() -> Any:
         b = QB()
         saves: List[Any] = []
@@ -210,6 +220,8 @@ def run_case(c: Dict[str, Any]) -> Outcome:
             n = runs.get(tid, 0)
             o = outs[n] if n < len(outs) else "ok"
             runs[tid] = n + 1
+            if c.get("clock_back") == n + 1:
+                wall[0] -= 5.0
             seen.append((tid, [a, b_, c_], {"z": z}))
             if o == "fail":
                 raise make_failure(c.get("fail_kind", "ValueError"))
@@ -264,7 +276,14 @@ def run_case(c: Dict[str, Any]) -> Outcome:
     cb_errors: List[str] = []
     stored_final: Dict[str, Any] = {}
     stale: List[str] = []
-    runs, saves, seen = asyncio.run(go())
+    _orig_time = getattr(_rr, "time", None)
+    if _orig_time is not None and c.get("clock_back"):
+        _rr.time = fake_time  # type: ignore[attr-defined]
+    try:
+        runs, saves, seen = asyncio.run(go())
+    finally:
+        if _orig_time is not None:
+            _rr.time = _orig_time  # type: ignore[attr-defined]
     nontriv = False
     classes: List[str] = [c["codec"]]
     if stale:
